@@ -93,15 +93,15 @@ def part_scripted(ctx, binp, wd):
         % (ms, 9 if quick else 13, mc.distinct, len(scen), mc.wall))
     exported = len(scen)
     scen.sort()
-    if not quick:  # replay: every pair with a script of <= 3 bytes, a seeded sample of the 4-byte ones
-        short, long_ = [], []
-        for s in scen:
-            (short if len(json.loads(s)["script"]) <= 3 else long_).append(s)
-        rnd = random.Random(ctx.seed)
-        rnd.shuffle(long_)
-        scen = short + long_[:100000]
+    # replay: every pair with a short script (quick <= 2, thorough <= 3 bytes), a seeded sample of the longest ones
+    short, long_ = [], []
+    for s in scen:
+        (short if len(json.loads(s)["script"]) < ms else long_).append(s)
+    rnd = random.Random(ctx.seed)
+    rnd.shuffle(long_)
+    scen = short + long_[:6000 if quick else 100000]
     random.Random(ctx.seed + 1).shuffle(scen)
-    nchunk = 2 if quick else 10
+    nchunk = 3 if quick else 10
     per = (len(scen) + nchunk - 1) // nchunk
     files, total = [], 0
     for k in range(nchunk):
@@ -114,12 +114,17 @@ def part_scripted(ctx, binp, wd):
         st = _drive(binp, ["-mode", "script", "-scenarios", sp, "-plans", pp, "-trace", tp])
         total += st["scenarios"]
         files.append(tp)
-    res = _validate_many("ParserTrace", files, 2 if quick else 5, "6g")
-    bad, cnt, lines, states = _attach_events(res)
     with open(files[0]) as f:
         samples = [json.loads(next(f)) for _ in range(2)]
+    kinds = add_selftest(files[0], SCR_CORRUPTIONS)
+    res = _validate_many("ParserTrace", files, 3 if quick else 5, "6g")
+    bad, cnt, lines, states = _attach_events(res)
+    lines -= 2 * len(kinds)
+    st = eval_selftest("scripted", kinds, res[0][1]["self"])
+    if not quick:
+        st += mutant_tests(ctx, binp, wd, os.path.join(wd, "scr-0.scen"), pp)
     log("[C05] part 1 done in %.1fs (TLC %.1fs)" % (time.time() - t0, mc.wall))
-    return {"mc": mc, "plans": len(plans), "plans_gen": pg, "plans_file": pp, "pairs_exported": exported, "replayed": total, "bad": bad, "cnt": cnt,
+    return {"selftests": st, "mc": mc, "plans": len(plans), "plans_gen": pg, "plans_file": pp, "pairs_exported": exported, "replayed": total, "bad": bad, "cnt": cnt,
             "lines": lines, "tstates": states, "samples": samples, "files": files, "max_script": ms}
 
 
@@ -127,7 +132,7 @@ def part_real(ctx, binp, wd):
     t0 = time.time()
     quick = ctx.tier == "quick"
     nproc = 3 if quick else 12
-    per = 800 if quick else 8000
+    per = 600 if quick else 8000
     procs = []
     for k in range(nproc):
         tp = os.path.join(wd, "real-%d.ndjson" % k)
@@ -136,8 +141,10 @@ def part_real(ctx, binp, wd):
     with ThreadPoolExecutor(max_workers=nproc) as ex:
         sts = list(ex.map(lambda pa: _drive(binp, pa[1]), procs))
     files = [tp for tp, _ in procs]
+    kinds = add_selftest(files[0], REAL_CORRUPTIONS)
     res = _validate_many("ParserRealTrace", files, 3 if quick else 6, "6g")
     bad, cnt, lines, states = _attach_events(res)
+    lines -= 2 * len(kinds)
     for b in bad:
         b["cmd"] = next(a for tp, a in procs if tp == b["file"])
     # measured coverage of the sample
@@ -147,7 +154,7 @@ def part_real(ctx, binp, wd):
         with open(tp) as f:
             for i, line in enumerate(f):
                 e = json.loads(line)
-                if e.get("op") != "rl":
+                if e.get("op") != "rl" or e.get("sc", 0) < 0:
                     continue
                 firsts[e["first"]] = firsts.get(e["first"], 0) + 1
                 subsets.add(tuple(e["s"]))
@@ -159,8 +166,9 @@ def part_real(ctx, binp, wd):
                     nontrivial.add((e["in"], tuple(e["s"])))
                 if len(samples) < 1 and k >= 3:
                     samples.append(e)
+    st = eval_selftest("real", kinds, res[0][1]["self"])
     log("[C05] part 2 done in %.1fs" % (time.time() - t0))
-    return {"cases": sum(s["scenarios"] for s in sts), "events": lines, "bad": bad, "cnt": cnt, "tstates": states,
+    return {"selftests": st, "cases": sum(s["scenarios"] for s in sts), "events": lines, "bad": bad, "cnt": cnt, "tstates": states,
             "first_layer": firsts, "parser_outcomes": errs, "events_with_2plus_decoded": deep, "subsets_used": len(subsets),
             "distinct_nontrivial": len(nontrivial), "samples": samples, "files": files}
 
@@ -180,8 +188,10 @@ def part_stale(ctx, binp, wd):
     with ThreadPoolExecutor(max_workers=min(rounds, 8)) as ex:
         sts = list(ex.map(lambda pa: _drive(binp, pa[1]), procs))
     files = [tp for tp, _ in procs]
+    kinds = add_selftest_stale(files[0])
     res = _validate_many("ParserSeqTrace", files, 2 if quick else 6, "6g")
     bad, cnt, lines, states = _attach_events(res)
+    lines -= 2 * len(kinds)
     # replay data: rerun the rejected sequences with the input bytes attached
     for b in bad:
         e = b.get("event", {})
@@ -201,8 +211,9 @@ def part_stale(ctx, binp, wd):
     samples = [json.loads(l) for l in lines0 if '"op":"reuse"' in l][:1]
     for s in samples:
         s["val"].pop("df", None)
+    st = eval_selftest("stale", kinds, res[0][1]["self"])
     log("[C05] part 3 done in %.1fs" % (time.time() - t0))
-    return {"gen": g, "N": N, "M": M, "rounds": rounds, "sequences": len(seqs), "replayed": sum(s["scenarios"] for s in sts),
+    return {"selftests": st, "gen": g, "N": N, "M": M, "rounds": rounds, "sequences": len(seqs), "replayed": sum(s["scenarios"] for s in sts),
             "events": lines, "bad": bad, "cnt": cnt, "tstates": states, "samples": samples, "files": files}
 
 
@@ -210,109 +221,115 @@ def part_stale(ctx, binp, wd):
 # binding self-tests: a recorded good trace with one corrupted field must be rejected (and the same prefix
 # uncorrupted must not be), and a harness-side mutant must be caught.
 
-def _corrupt_all(lines, corruptions, each=3):
-    """apply every (pick, mutate, reasons) to up to `each` different lines; returns (new lines, [line numbers])"""
-    out, used = list(lines), []
-    for pick, mutate, _ in corruptions:
+def _stride(path, n):
+    with open(path) as f:
+        ls = f.readlines()
+    k = max(1, len(ls) // n)
+    return ls[::k][:n]
+
+
+SCR_CORRUPTIONS = [
+    ("decoded type dropped", lambda e: e["op"] == "scr" and any(len(r["types"]) >= 1 and 0 in r["who"] for r in e["res"]),
+     lambda e: [r["types"].pop() for r in e["res"] if 0 in r["who"]]),
+    ("Truncated cleared", lambda e: e["op"] == "scr" and e["pkt"]["trunc"] and any(r["trunc"] for r in e["res"]),
+     lambda e: [r.__setitem__("trunc", False) for r in e["res"]])]
+REAL_CORRUPTIONS = [
+    ("field digest changed", lambda e: e["op"] == "rl" and any(len(r["types"]) >= 2 for r in e["res"]),
+     lambda e: e["pkt"]["ls"][1].__setitem__("d", "0" * 16)),
+    ("unsupported-layer error dropped", lambda e: e["op"] == "rl" and any(r["err"] == "unsup" for r in e["res"]),
+     lambda e: [r.__setitem__("err", "none") for r in e["res"] if r["err"] == "unsup"]),
+    ("packet Truncated cleared", lambda e: e["op"] == "rl" and e["pkt"]["trunc"] and all(r["trunc"] for r in e["res"]),
+     lambda e: e["pkt"].__setitem__("trunc", False))]
+
+
+def add_selftest(path, corruptions, each=3):
+    """Binding self-test, folded into the validation run of a recorded trace: for every kind of corruption up to `each`
+    recorded events are appended twice, unchanged (sc = -2) and with one field corrupted (sc = -1).  The trace modules
+    report events with sc < 0 apart (`self`) and never count them.  Returns the kinds, in the order appended."""
+    lines = _stride(path, 400)
+    out, kinds = [], []
+    for name, pick, mutate in corruptions:
         n = 0
-        for i, l in enumerate(out):
-            if (i + 1) in used:
-                continue
+        for l in lines:
             e = json.loads(l)
-            if pick(e):
+            if e.get("sc", 0) > 0 and pick(e):
+                e["sc"] = -2
+                out.append(json.dumps(e) + "\n")
                 mutate(e)
-                out[i] = json.dumps(e) + "\n"
-                used.append(i + 1)
+                e["sc"] = -1
+                out.append(json.dumps(e) + "\n")
+                kinds.append(name)
                 n += 1
                 if n == each:
                     break
         if n == 0:
-            return None, used
-    return out, used
+            raise vlib.Infra("self-test: no recorded event suitable for '%s'" % name)
+    with open(path, "a") as f:
+        f.writelines(out)
+    return kinds
 
 
-def selftest(ctx, binp, wd, files, main_cnt):
-    quick = ctx.tier == "quick"
-
-    def stride(path, n):
-        with open(path) as f:
-            ls = f.readlines()
-        k = max(1, len(ls) // n)
-        return ls[::k][:n]
-
-    jobs = []      # (name, module, clean lines, corruptions, baseline known to be zero)
-    jobs.append(("scripted", "ParserTrace", stride(files["scr"], 300), [
-        (lambda e: e["op"] == "scr" and any(len(r["types"]) >= 1 and 0 in r["who"] for r in e["res"]),
-         lambda e: [r["types"].pop() for r in e["res"] if 0 in r["who"]], ["parser-ne-packet"]),
-        (lambda e: e["op"] == "scr" and e["pkt"]["trunc"] and any(r["trunc"] for r in e["res"]),
-         lambda e: [r.__setitem__("trunc", False) for r in e["res"]], ["parser-ne-packet"])], main_cnt["scr"]))
-    jobs.append(("real", "ParserRealTrace", stride(files["real"], 300), [
-        (lambda e: e["op"] == "rl" and any(len(r["types"]) >= 2 for r in e["res"]),
-         lambda e: e["pkt"]["ls"][1].__setitem__("d", "0" * 16), ["fields-differ"]),
-        (lambda e: e["op"] == "rl" and any(r["err"] == "unsup" for r in e["res"]),
-         lambda e: [r.__setitem__("err", "none") for r in e["res"] if r["err"] == "unsup"], ["parser-bookkeeping", "not-leading-run"]),
-        (lambda e: e["op"] == "rl" and e["pkt"]["trunc"] and all(r["trunc"] for r in e["res"]),
-         lambda e: e["pkt"].__setitem__("trunc", False), ["truncated-differs"])], main_cnt["real"]))
-    # stale: the fresh events of the first pool, one of them repeated as a reuse event (accepted by construction)
-    # and repeated once more with one digest changed (must be the only rejection)
-    fresh = []
-    with open(files["stale"]) as f:
+def add_selftest_stale(path):
+    """a fresh event repeated as a reuse event (accepted by construction, sc = -2) and once more with one digest changed"""
+    twin = None
+    with open(path) as f:
         for l in f:
             e = json.loads(l)
             if e["op"] != "fresh":
                 break
-            fresh.append(e)
-    twin = next(e for e in fresh if len(e["val"]["ds"]) >= 1)
-    good = dict(twin, op="reuse", seq=[1, 1], pool="selftest")
+            if len(e["val"]["ds"]) >= 1:
+                twin = e
+    if twin is None:
+        raise vlib.Infra("self-test: no fresh event with a decoded layer")
+    good = dict(twin, op="reuse", seq=[1, 1], pool="selftest", sc=-2)
     badv = json.loads(json.dumps(good))
+    badv["sc"] = -1
     badv["val"]["ds"][0] = "x" + badv["val"]["ds"][0]
-    sl = [json.dumps(e) + "\n" for e in fresh + [good, badv]]
-    sp = os.path.join(wd, "st-stale.ndjson")
-    open(sp, "w").writelines(sl)
+    with open(path, "a") as f:
+        f.write(json.dumps(good) + "\n" + json.dumps(badv) + "\n")
+    return ["digest of a reused decode changed"]
 
-    def runjob(j):
-        name, module, lines, cors, cnt = j
-        cor, used = _corrupt_all(lines, cors)
-        if cor is None:
-            raise vlib.Infra("self-test %s: no suitable event in the recorded trace" % name)
-        reasons = sorted({r for c in cors for r in c[2]})
-        base = 0
-        if any(cnt.get(r, 0) for r in reasons):        # the tree under test has genuine rejections of that kind: measure the baseline
-            a = os.path.join(wd, "st-%s-clean.ndjson" % name)
-            open(a, "w").writelines(lines)
-            va = _validate(module, a, "st-a-" + name, "2g")
-            base = sum(va["cnt"].get(r, 0) for r in reasons)
-        b = os.path.join(wd, "st-%s-bad.ndjson" % name)
-        open(b, "w").writelines(cor)
-        vb = _validate(module, b, "st-b-" + name, "2g")
-        got = sum(vb["cnt"].get(r, 0) for r in reasons) - base
-        return name, got >= len(cors), "%d kinds of corruption on %d events (lines %s) -> %d more rejections (%s)" % (len(cors), len(used), used, got, "/".join(reasons))
 
-    def runstale(_):
-        v = _validate("ParserSeqTrace", sp, "st-stale", "2g")
-        ok = v["cnt"].get("stale-state", 0) == 1 and [b["line"] for b in v["bad"]] == [len(sl)]
-        return "stale", ok, "reuse twin of a fresh event accepted, twin with one changed digest rejected at line %d: %s" % (len(sl), v["cnt"])
+def eval_selftest(name, kinds, selfrep):
+    """selfrep: the `self` list of the verdict (pairs: unchanged twin, corrupted twin).  A kind passes if some twin pair
+    is conclusive (the unchanged twin accepted) and every conclusive pair has its corrupted twin rejected."""
+    selfrep = sorted(selfrep, key=lambda x: x["line"])
+    if len(selfrep) != 2 * len(kinds):
+        raise vlib.Infra("self-test %s: %d self events reported, %d appended" % (name, len(selfrep), 2 * len(kinds)))
+    res = {}
+    for i, k in enumerate(kinds):
+        clean, cor = selfrep[2 * i], selfrep[2 * i + 1]
+        st = res.setdefault(k, {"conclusive": 0, "rejected": 0, "reasons": set()})
+        if clean["reason"] == "ok":
+            st["conclusive"] += 1
+            if cor["reason"] != "ok":
+                st["rejected"] += 1
+                st["reasons"].add(cor["reason"])
+    out = []
+    for k, st in res.items():
+        ok = st["conclusive"] >= 1 and st["rejected"] == st["conclusive"]
+        out.append({"test": "%s: %s" % (name, k), "ok": ok,
+                    "detail": "%d recorded events re-validated unchanged and corrupted: %d corrupted rejected (%s)"
+                              % (st["conclusive"], st["rejected"], "/".join(sorted(st["reasons"])))})
+    return out
+
+
+def mutant_tests(ctx, binp, wd, scen_file, plans_file):
+    """harness-side mutants of the doubles (thorough tier): each must be rejected"""
+    msp = os.path.join(wd, "mut.scen")
+    open(msp, "w").writelines(_stride(scen_file, 600))
 
     def runmut(m):
-        msp = os.path.join(wd, "mut.scen")
-        if not os.path.exists(msp):
-            open(msp, "w").writelines(stride(files["scen"], 600))
         tp = os.path.join(wd, "st-mut%d.ndjson" % m[0])
-        _drive(binp, ["-mode", "script", "-scenarios", msp, "-plans", files["plans"], "-mutant", str(m[0]), "-trace", tp])
+        _drive(binp, ["-mode", "script", "-scenarios", msp, "-plans", plans_file, "-mutant", str(m[0]), "-trace", tp])
         v = _validate("ParserTrace", tp, "st-mut%d" % m[0], "2g")
         got = sum(v["cnt"].get(r, 0) for r in m[1])
-        return "mutant%d" % m[0], got >= 1, "harness-side mutant (%s): %d rejections" % (m[2], got)
+        return {"test": "mutant%d" % m[0], "ok": got >= 1, "detail": "harness-side mutant (%s): %d rejections" % (m[2], got)}
 
-    muts = [] if quick else [(1, ["wrong-decoder-called", "parser-ne-packet"], "custom container's lookup ignores the type"),
-                             (2, ["parser-ne-packet"], "scripted layers on the parser side forget SetTruncated")]
-    if muts:
-        open(os.path.join(wd, "mut.scen"), "w").writelines(stride(files["scen"], 600))
-    with ThreadPoolExecutor(max_workers=4) as ex:
-        f1 = [ex.submit(runjob, j) for j in jobs]
-        f2 = [ex.submit(runstale, 0)]
-        f3 = [ex.submit(runmut, m) for m in muts]
-        out = [f.result() for f in f1 + f2 + f3]
-    return [{"test": n, "ok": ok, "detail": d} for n, ok, d in out]
+    muts = [(1, ["wrong-decoder-called", "parser-ne-packet"], "custom container's lookup ignores the type"),
+            (2, ["parser-ne-packet"], "scripted layers on the parser side forget SetTruncated")]
+    with ThreadPoolExecutor(max_workers=2) as ex:
+        return list(ex.map(runmut, muts))
 
 
 # ---------------------------------------------------------------------------------------------------------------
@@ -366,11 +383,7 @@ def run(ctx):
                      {"event": _trim(e2, 4000), "inputs_hex": b.get("hex"), "first": b.get("first"),
                       "explain": "cmd/parser -mode explain -first <first> <hex>..."})
 
-    t1 = time.time()
-    st = selftest(ctx, binp, wd, {"scr": S["files"][0], "real": R["files"][0], "stale": T["files"][0], "scen": os.path.join(wd, "scr-0.scen"),
-                                   "plans": S["plans_file"]},
-                  {"scr": S["cnt"], "real": R["cnt"]})
-    log("[C05] self-tests took %.1fs" % (time.time() - t1))
+    st = S["selftests"] + R["selftests"] + T["selftests"]
     rc = V.finish()
     failed = [x for x in st if not x["ok"]]
     if failed and rc == 0:
